@@ -9,12 +9,23 @@ T  spec/mpi/SmpiPriv.tla: store[rank][var]; a write changes the writer's copy on
    the variables themselves being the message buffers.  harness/mpi_priv.c logs every access and call;
    SmpiPrivTrace validates each recorded execution line by line (TLC).  Run with smpi/privatization:mmap and dlopen,
    detached and non-detached sends.
+
+Mutations (single-object rebuilds against a copy of the instrumented build, quick tier):
+  M1 ActorImpl::yield no longer calls smpi_switch_data_segment on resume            -> missed: equivalent for MPI programs
+     (smpi_bench_begin switches again at the exit of every SMPI call, including sleeps)
+  M3 smpi_comm_copy_buffer_callback does not switch to the receiver's data segment  -> caught (mmap, e.g. allreduce result)
+  M5 smpi_init_privatization_dlopen gives ranks 2k and 2k+1 the same copy           -> caught (dlopen)
+  Sanity: the same programs with smpi/privatization:no are rejected at the first foreign value.
 """
 import json, os
 import vlib, drivers
 import smpi_rt_common as R
 
 LEVEL = "model_checking"
+META = {
+    "text": "SmpiPriv.tla: store[rank][var], a write changes the writer's copy only, a read returns the reader's own last write; message buffers that are globals read the sender's copy and update the receiver's copy (FIFO channels, allreduce/bcast contributions). Generated programs (2..8 ranks, 11 globals/statics of different storage kinds incl. a second translation unit and multi-page arrays) interleave rank-specific writes, reads and MPI calls that switch ranks (Send/Ssend/Isend/Recv/Irecv/Waitall/Sendrecv/Allreduce/Bcast/Barrier/sleep); every access is logged and TLC validates each recorded execution line by line against the specification, under smpi/privatization mmap and dlopen, detached and non-detached sends.",
+    "note": "Trusted: TLC; the driver's single-file append log (file order = execution order, all ranks share the OS process) and its stack/heap-only own state. Conformance holds for the executions run; a run without privatization is rejected at the first foreign value (checked). Removing the switch in ActorImpl::yield alone is an equivalent mutant (smpi_bench_begin re-switches at every SMPI call exit).",
+    "technique": 'TLC trace validation (SmpiPrivTrace) of real smpirun executions of generated programs (mpi_priv driver)'}
 DRIVERS = {"mpi_priv": (["mpi_priv.c", "mpi_priv2.c"], "c-smpi", [])}
 
 INIT = [7, 0, 11, 0, 13, 0, 21, 0, 0, 0, 23]     # initial values of the variables of harness/mpi_priv.c (1-based)
